@@ -10,7 +10,7 @@ import_gscrib()
 from gscrib.excepts import DeviceError   # noqa: E402
 
 STATEMENTS = ["G1 X1", "M114", "G1 X2", "M105"]
-BEHAVIOURS = ["ok", "status+ok", "report+ok", "report-in-ok", "error", "alarm", "bang", "Error+ok", "loss"]
+BEHAVIOURS = ["ok", "status+ok", "report+ok", "report-in-ok", "error", "alarm", "bang", "Error+ok", "loss", "ok+async-alarm"]
 ERRORS = ("error", "alarm", "bang", "Error+ok")
 
 
@@ -53,6 +53,9 @@ class DirectFirmware:
             return self._out([(f"X:{val} Y:0.00 Z:0.00 E:0.00 Count X:0 Y:0 Z:0", ("report", k, ("X", float(val)))), ("ok", ("ack", k))])
         if b == "report-in-ok":
             return self._out([(f"ok T:{val} /0.0 B:60.0 /0.0", ("ack", k, ("T", float(val))))])
+        if b == "ok+async-alarm":
+            # the statement is acknowledged; later the machine reports an alarm on its own (limit switch, door ...)
+            return self._out([("ok", ("ack", k)), ("ALARM:9", ("async-err", k))])
         if b == "error":
             return self._out([("error:20", ("err", k))])
         if b == "alarm":
@@ -112,7 +115,7 @@ def run_execution(cfg, prefix, record=False):
                 idle = 0 if busy else idle + 1
         marks["first_write_at"] = len(ex.dev.log)
         for k, s in enumerate(stmts):
-            rec = {"k": k, "stmt": s, "exc": None}
+            rec = {"k": k, "stmt": s, "exc": None, "rx_at_start": rx_count()}
             try:
                 w.write((s + "\n").encode("utf-8"))
             except Exception as e:    # noqa: BLE001
@@ -154,10 +157,13 @@ def check_execution(cfg, ex, marks, leaked):
     # threads that did not unwind in time after an abort are a property of the harness and of machine load,
     # never a verdict about gscrib: they are counted by the caller, not reported
     if "connect_exc" in marks:
+        if S.timeouts_fired:
+            return P        # the connection time-out was made to expire: connect() is entitled to give up
         P.append(("connect-raised", f"connect() raised {marks['connect_exc']!r}"))
         return P
     produced = fw.produced
     stale_source = None       # first stale acknowledgement seen in this execution
+    surfaced = set()          # unsolicited alarms already raised to the caller
     lost_k = beh.index("loss") if "loss" in beh else None
 
     def tag_index(pred):
@@ -217,6 +223,16 @@ def check_execution(cfg, ex, marks, leaked):
             elif not isinstance(exc, DeviceError):
                 P.append(("error-reply-wrong-exception", f"write({k}) raised {exc!r} for device reply {b}"))
             continue
+        # an unsolicited alarm consumed before this call returned surfaces here (at the latest)
+        async_seen = [i for i, (_, t) in enumerate(produced) if t[0] == "async-err" and i < consumed and i not in surfaced]
+        if async_seen and exc is not None and isinstance(exc, DeviceError) and "ALARM:9" in str(exc):
+            surfaced.update(async_seen)
+            term = tag_index(lambda t: t[0] in ("ack", "err") and t[1] == k)
+            if b != "loss" and (term is None or consumed <= term):
+                # the alarm released this call before its own acknowledgement arrived: every later acknowledgement is
+                # shifted by one (known finding), the alarm itself surfaced where it should
+                stale_source = stale_source or "shift-after-unsolicited-alarm"
+            continue
         # normal behaviours
         if exc is not None:
             # an exception on a healthy statement: caused by an earlier error reply surfacing late?
@@ -243,6 +259,17 @@ def check_execution(cfg, ex, marks, leaked):
                 name, val = t[2]
                 if rec["readings"].get(name) != val:
                     P.append(("reading-not-available-at-return", f"write({k}) [{b}] returned but get_parameter({name!r}) = {rec['readings'].get(name)!r}, expected {val}"))
+    if marks["calls"] and lost_k is None:
+        # an alarm the host had already read when a later write() was made must have been raised by one of those writes
+        for i, (_, t) in enumerate(produced):
+            if t[0] == "async-err" and i not in surfaced:
+                later = [c for c in marks["calls"] if c["k"] > t[1] and c["rx_at_return"] > i]
+                seen_before_a_later_call_started = [c for c in marks["calls"] if c["k"] > t[1] and c.get("rx_at_start", 10 ** 9) > i]
+                if seen_before_a_later_call_started and not any(isinstance(c["exc"], DeviceError) for c in marks["calls"] if c["k"] > t[1]):
+                    if stale_source:
+                        P.append((f"stale-ok:{stale_source}", "an unsolicited alarm was not raised (acknowledgements shifted by the stale ok)"))
+                    else:
+                        P.append(("unsolicited-alarm-never-raised", f"ALARM line (reply #{i}) was read by the host before write({seen_before_a_later_call_started[0]['k']}) started, but no later call raised a DeviceError"))
     # second session: the statement is delivered and the call returns (released by its own ack or - known finding - by
     # the stale ok of the second handshake, which no caller can drain because write() connects by itself)
     if "second_session" in marks and lost_k is None:
@@ -279,8 +306,16 @@ def releasing_source(produced, consumed, k):
             return "handshake-M110" if "M110" in t[1] else "handshake-G4P0"
         if t[0] == "extra-ok":
             return "ok-after-Error"
+        if t[0] == "async-err":
+            return "shift-after-unsolicited-alarm"
         if t[0] in ("ack", "err") and t[1] != k:
-            return None if t[1] > k else f"reply-of-earlier-statement"
+            if t[1] > k:
+                return None
+            # the reply of an earlier statement released this call: acknowledgements are shifted. Blame the first
+            # extra releasing line seen so far (an unsolicited alarm also releases the waiter)
+            if any(tt[0] == "async-err" for _, tt in produced[:i]):
+                return "shift-after-unsolicited-alarm"
+            return "reply-of-earlier-statement"
         return None
     return None
 
@@ -340,7 +375,8 @@ def plan(tier):
             for c in cfgs(two, behs, ("Q", "L"), (None, "start"), (False, True), True):
                 items.append((c, 0, None))
         # one deviation, line-level, on representative histories
-        for behs in (("ok", "report+ok"), ("status+ok", "report-in-ok"), ("error", "ok"), ("report+ok", "alarm"), ("ok", "loss"), ("bang", "report+ok")):
+        for behs in (("ok", "report+ok"), ("status+ok", "report-in-ok"), ("error", "ok"), ("report+ok", "alarm"), ("ok", "loss"), ("bang", "report+ok"),
+                     ("ok+async-alarm", "ok")):
             for c in cfgs(two, behs, ("Q", "L"), (None,), (False,), True):
                 items.append((c, 1, None))
         for c in cfgs(three, ("report+ok", "ok", "report-in-ok"), ("Q",), (None, "start"), (False, True), False):
